@@ -1372,6 +1372,21 @@ def cg1(ctx, R):
                         path=cg.chain(seen, hit[0]))
         else:
             R.ok(e, prog.func(e).where(), "%d functions reachable, none of the whole-file/whole-segment readers" % len(seen))
+    # contiguous layout: the per-channel chunk reader seeks past the other channels, it never falls back to the reader of all
+    # channels of the chunk (the base class offers that fallback to the layouts that cannot skip)
+    cr = prog.classes.get("tdms_segment.ContiguousDataReader")
+    pc = cr.methods.get("_read_channel_data_chunk") if cr is not None else None
+    if pc is None:
+        R.unrecognised("tdms_segment.ContiguousDataReader::per-channel chunk reader", prog.module("tdms_segment").relpath,
+                       "the contiguous reader has no per-channel chunk method of its own")
+    else:
+        seen = cg.reachable([pc.qual], kinds=kinds)
+        hit = [q for q in seen if q.endswith("._read_data_chunk") or q.endswith("._read_data_chunks")]
+        if hit:
+            R.violation(pc.qual, pc.where(), "%s is reachable from the per-channel chunk reader of the contiguous layout: on that path the data of every "
+                        "channel in the chunk is fetched to serve one channel" % sorted(hit)[0], path=cg.chain(seen, sorted(hit)[0]))
+        else:
+            R.ok(pc.qual, pc.where(), "%d functions reachable, the all-channels chunk reader is not among them" % len(seen))
 
 
 @rule("CH1", "integer indexing serves repeated reads of a chunk from the cache and otherwise fetches one chunk", floor=2)
